@@ -45,12 +45,21 @@ type corpus struct {
 		Shift  int        `json:"shift"`
 		P      [3]float64 `json:"p"`
 	} `json:"boltnut"`
-	Taper []struct {
+	Histories [][]genCall `json:"histories"`
+	Taper     []struct {
 		Thread string  `json:"thread"`
 		Length float64 `json:"length"`
 		Z      float64 `json:"z"`
 		Phi    float64 `json:"phi"`
 	} `json:"taper"`
+}
+
+// one call of a generator of package obj that looks its thread up in the database
+type genCall struct {
+	Gen    string  `json:"gen"` // cylinder | nut | bolt
+	Thread string  `json:"thread"`
+	Style  string  `json:"style,omitempty"` // hex | knurl (nut, bolt)
+	Tol    float64 `json:"tol"`
 }
 
 type mateCase struct {
@@ -228,6 +237,9 @@ func check(c *Ctx, r *Report) error {
 	}
 	mmPerInch := big.NewRat(254, 10)
 	var geos []tgeo
+	// bit-exact snapshot of the fresh database (taken before any generator has run): entry and ToMillimetre of it
+	snap := map[string]sdf.ThreadParameters{}
+	snapMM := map[string]sdf.ThreadParameters{}
 	for _, n := range names {
 		t, err := sdf.ThreadLookup(n)
 		if err != nil {
@@ -236,6 +248,7 @@ func check(c *Ctx, r *Report) error {
 		}
 		id++
 		m := t.ToMillimetre()
+		snap[n], snapMM[n] = *t, *m
 		cd.Add(fmt.Sprintf("(%d%%N, %s, (%s,%s,%s,%s), %s, (%s,%s,%s,%s), %s)", id, strconv.Quote(t.Name),
 			CF(t.Radius), CF(t.Pitch), CF(t.Taper), CF(t.HexFlat2Flat), strconv.Quote(t.Units),
 			CF(m.Radius), CF(m.Pitch), CF(m.Taper), CF(m.HexFlat2Flat), strconv.Quote(m.Units)))
@@ -840,6 +853,119 @@ func check(c *Ctx, r *Report) error {
 		}
 	}
 
+	// ------------------------------------------------------------ 8. histories: the generators are read-only on the database
+	// Every generator of package obj that does a ThreadLookup (ThreadedCylinderParms.Object, Nut, Bolt) is called,
+	// several rounds, with assorted designations (metric, unified, pipe) and tolerances > 0.  After EVERY call every
+	// database key must still be bit-identical (entry, hex sizes, ToMillimetre of it) to the snapshot taken before any
+	// generator ran; afterwards the whole database goes through the `db` correspondence again (cases_dbafter).
+	sameBits := func(a, b sdf.ThreadParameters) bool {
+		return a.Name == b.Name && a.Units == b.Units &&
+			math.Float64bits(a.Radius) == math.Float64bits(b.Radius) && math.Float64bits(a.Pitch) == math.Float64bits(b.Pitch) &&
+			math.Float64bits(a.Taper) == math.Float64bits(b.Taper) && math.Float64bits(a.HexFlat2Flat) == math.Float64bits(b.HexFlat2Flat)
+	}
+	drifted := map[string]bool{}
+	dbUnchanged := func(stratum string, hist []genCall) {
+		for _, n := range names {
+			if drifted[n] {
+				continue
+			}
+			t, err := sdf.ThreadLookup(n)
+			if err != nil {
+				continue
+			}
+			want, wantMM := snap[n], snapMM[n]
+			got, gotMM := *t, *t.ToMillimetre()
+			if sameBits(got, want) && sameBits(gotMM, wantMM) && sameBits(*gotMM.ToMillimetre(), wantMM) &&
+				math.Float64bits(t.HexRadius()) == math.Float64bits(want.HexRadius()) && math.Float64bits(t.HexHeight()) == math.Float64bits(want.HexHeight()) {
+				continue
+			}
+			drifted[n] = true
+			last := hist[len(hist)-1]
+			r.Violate(fmt.Sprintf("history:%s:%s:%s", last.Gen, last.Thread, n),
+				fmt.Sprintf("after %d generator call(s), the last one obj %s(thread %q, style %q, tolerance %v), the thread database entry %q is no longer what it was before any generator ran: radius %v pitch %v taper %v hex %v units %q (ToMillimetre: radius %v pitch %v), fresh database: radius %v pitch %v taper %v hex %v units %q (ToMillimetre: radius %v pitch %v) - the designation no longer matches its stored radius/pitch",
+					len(hist), last.Gen, last.Thread, last.Style, last.Tol, n, got.Radius, got.Pitch, got.Taper, got.HexFlat2Flat, got.Units, gotMM.Radius, gotMM.Pitch,
+					want.Radius, want.Pitch, want.Taper, want.HexFlat2Flat, want.Units, wantMM.Radius, wantMM.Pitch),
+				map[string]interface{}{"history": append([]genCall(nil), hist...), "changed": n})
+		}
+	}
+	runCall := func(gc genCall) {
+		t, ok := snapMM[gc.Thread] // sizes from the snapshot, so a drifting database cannot change the arguments
+		if !ok {
+			return
+		}
+		var err error
+		switch gc.Gen {
+		case "cylinder":
+			_, err = (&obj.ThreadedCylinderParms{Height: 6 * t.Pitch, Diameter: 4*t.Radius + 8*gc.Tol, Thread: gc.Thread, Tolerance: gc.Tol}).Object()
+		case "nut":
+			_, err = obj.Nut(&obj.NutParms{Thread: gc.Thread, Style: gc.Style, Tolerance: gc.Tol})
+		case "bolt":
+			u := snap[gc.Thread]
+			_, err = obj.Bolt(&obj.BoltParms{Thread: gc.Thread, Style: gc.Style, Tolerance: gc.Tol, TotalLength: 12 * u.Pitch, ShankLength: 2 * u.Pitch})
+		default:
+			return
+		}
+		if err != nil {
+			r.Violate(fmt.Sprintf("history:error:%s:%s", gc.Gen, gc.Thread), fmt.Sprintf("obj %s(thread %q, style %q, tolerance %v) fails: %v", gc.Gen, gc.Thread, gc.Style, gc.Tol, err), gc)
+		}
+	}
+	history := func(stratum string, calls []genCall) {
+		var hist []genCall
+		for _, gc := range calls {
+			runCall(gc)
+			hist = append(hist, gc)
+			r.Case(fmt.Sprintf("history/%s/%s/%s", stratum, gc.Gen, snap[gc.Thread].Units), fmt.Sprintf("hist:%s,%s,%s,%x#%d", gc.Gen, gc.Thread, gc.Style, gc.Tol, len(hist)), gc.Tol > 0)
+			dbUnchanged(stratum, hist)
+		}
+	}
+	for _, h := range cp.Histories {
+		history("corpus", h)
+	}
+	{
+		var calls []genCall
+		rounds := TierN(c.Tier, 3, 8, 4)
+		hgeos := pick(TierN(c.Tier, 14, len(geos), 30))
+		for round := 0; round < rounds; round++ {
+			for _, g := range hgeos {
+				// tolerance in the unit of the designation, > 0 except in one round out of four
+				tol := g.pitch * []float64{0.02, 0.1, 0.25}[rng.Intn(3)]
+				if (round+len(calls))%4 == 3 {
+					tol = 0
+				}
+				style := []string{"hex", "knurl"}[rng.Intn(2)]
+				for _, gen := range []string{"cylinder", "nut", "bolt"} {
+					gt := tol
+					if gen == "cylinder" && g.units == "inch" {
+						gt = tol * 25.4 // ThreadedCylinder works in millimetres
+					}
+					calls = append(calls, genCall{Gen: gen, Thread: g.name, Style: style, Tol: gt})
+				}
+			}
+		}
+		// shuffle so that generators and designations interleave
+		for i, j := range rng.Perm(len(calls)) {
+			if i < j {
+				calls[i], calls[j] = calls[j], calls[i]
+			}
+		}
+		history("random", calls)
+		r.Sample(map[string]interface{}{"kind": "history", "calls": len(calls), "first": calls[0], "database_entries_changed": len(drifted)})
+	}
+	// the database after the histories, through the same correspondence as the fresh one
+	cda := &Cases{Kind: "dbafter", Imports: imp, Type: "cased", Fn: "mismatchesd", InfoFn: "uncovered", PerShard: 1000}
+	for _, n := range names {
+		t, err := sdf.ThreadLookup(n)
+		if err != nil {
+			continue
+		}
+		id++
+		m := t.ToMillimetre()
+		cda.Add(fmt.Sprintf("(%d%%N, %s, (%s,%s,%s,%s), %s, (%s,%s,%s,%s), %s)", id, strconv.Quote(n),
+			CF(t.Radius), CF(t.Pitch), CF(t.Taper), CF(t.HexFlat2Flat), strconv.Quote(t.Units),
+			CF(m.Radius), CF(m.Pitch), CF(m.Taper), CF(m.HexFlat2Flat), strconv.Quote(m.Units)))
+		r.Case("dbafter/"+t.Units, "dbafter:"+n, true)
+	}
+
 	// the model's smoothed vertex lists against the closed-form outlines, for every row and toleranced radii
 	for _, g := range geos {
 		for _, dr := range []float64{0, -0.1 * g.pitch, 0.37 * g.pitch} {
@@ -848,7 +974,7 @@ func check(c *Ctx, r *Report) error {
 			r.Case("vertices", fmt.Sprintf("vert:%x,%x", g.r+dr, g.pitch), true)
 		}
 	}
-	for _, x := range []*Cases{cd, cpb, cs, cf, cg, cv} {
+	for _, x := range []*Cases{cd, cpb, cs, cf, cg, cv, cda} {
 		if err := x.Write(c.Out); err != nil {
 			return err
 		}
@@ -860,7 +986,7 @@ func check(c *Ctx, r *Report) error {
 	sort.Strings(sn)
 	r.Coverage["database_rows"] = len(rows)
 	r.Coverage["database_keys"] = len(names)
-	r.Rule = "every database key (ThreadLookup, ToMillimetre) bit-exact against the row regenerated from the source and against the designation (M<d>x<P> parsed; ASME B1.1 / B1.20.1 reference tables); SawTooth on dyadic / multiple-of-period / next-to-the-jump / random arguments; the helical mapping observed through a recording probe profile (on the axis, theta = +-pi, end planes, dyadic, far outside, thread zone; starts 0, +-1..+-4; straight and NPT-tapered; invalid constructor arguments); ISOThread profile and full Screw3D values near flanks / crests / roots / strip edges against the Gallina model; helix invariance, z-periodicity, handedness on long screws; mating of external radius-tol against the nut material of internal radius+tol for every row x tolerances {0, 1%, 25%, 100% of the pitch}; obj.Bolt against obj.Nut placed whole pitches along the thread. non-trivial = every case; distinct by exact input bits."
+	r.Rule = "every database key (ThreadLookup, ToMillimetre) bit-exact against the row regenerated from the source and against the designation (M<d>x<P> parsed; ASME B1.1 / B1.20.1 reference tables); SawTooth on dyadic / multiple-of-period / next-to-the-jump / random arguments; the helical mapping observed through a recording probe profile (on the axis, theta = +-pi, end planes, dyadic, far outside, thread zone; starts 0, +-1..+-4; straight and NPT-tapered; invalid constructor arguments); ISOThread profile and full Screw3D values near flanks / crests / roots / strip edges against the Gallina model; helix invariance, z-periodicity, handedness on long screws; mating of external radius-tol against the nut material of internal radius+tol for every row x tolerances {0, 1%, 25%, 100% of the pitch}; obj.Bolt against obj.Nut placed whole pitches along the thread; HISTORIES: interleaved calls of every obj generator that looks a thread up (ThreadedCylinder, Nut, Bolt; hex/knurl; metric, unified, pipe designations; tolerances > 0 and 0; several rounds), after every call every database key bit-identical (entry, hex sizes, ToMillimetre, ToMillimetre twice) to the snapshot of the fresh database, and the database after the histories through the db correspondence again. non-trivial = every case; distinct by exact input bits."
 	r.Trusted = append(r.Trusted,
 		"translator harness/threadgen (go/parser + go/constant): rows and the Add/ToMillimetre field expressions of sdf/screw.go -> coq/Generated/Threads.v on every run",
 		"hand model coq/Sdf/Screw.v (SawTooth, Screw3D, ScrewSDF3.Evaluate, Polygon smoothing, ISOThread, exhaustive polygon distance) tied by differential execution at FOps: mapping bit-exact, profile/screw values within 1e-10*(radius+pitch) because Polygon2D walks a quadtree of clipped segments",
